@@ -71,3 +71,33 @@ Proof.
   apply no_edits_hist_ok; auto; vm_compute; discriminate.
 Qed.
 Print Assumptions C13_default_chain_follows_schedule.
+
+(* ---------------------------------------------------------------- the roll-over comparison of this tree *)
+Require Import Nib.C13.RollExpr.
+
+(** the comparison guarding CurrentPeriod.Next in hooks.go (operator, operands, int64/uint64 conversions, extracted on
+    every run), evaluated with Go's rules, IS the model's roll-over test *)
+Theorem C13_rollover_expression_is_modelled :
+  forall e epp per sk : Z, rtest gen_rollover (renv e epp per sk) = rollover e epp per sk.
+Proof. intros. reflexivity. Qed.
+
+(** hence (C13_rollover_test_without_wraparound) the expression of this tree is the comparison on the integers for
+    sizes below 2^62 — in particular it is false, and the period waits, when the counters are ahead of the epoch number *)
+Theorem C13_rollover_expression_is_integer_comparison :
+  forall e epp per sk : Z,
+    0 <= e < two62 -> 0 <= sk < two62 -> 0 < epp < two62 -> 0 <= epp * per < two62 ->
+    rtest gen_rollover (renv e epp per sk) = (epp <=? e - epp * per - sk).
+Proof.
+  intros e epp per sk H1 H2 H3 H4. rewrite C13_rollover_expression_is_modelled.
+  exact (C13_rollover_test_without_wraparound e epp per sk H1 H2 H3 H4).
+Qed.
+Print Assumptions C13_rollover_expression_is_integer_comparison.
+
+Theorem C13_counters_ahead_do_not_roll_over_on_this_tree :
+  forall e epp per sk : Z,
+    0 <= e < two62 -> 0 <= sk < two62 -> 0 < epp < two62 -> 0 <= epp * per < two62 ->
+    e < epp * per + sk -> rtest gen_rollover (renv e epp per sk) = false.
+Proof.
+  intros e epp per sk H1 H2 H3 H4 H5. rewrite (C13_rollover_expression_is_integer_comparison e epp per sk H1 H2 H3 H4).
+  apply Z.leb_gt. lia.
+Qed.
